@@ -37,7 +37,8 @@ class SetEncoder(encoder.SetEncoder):
                         '%s components for Choice at %r' % (len(names) and 'Multiple ' or 'None ', component))
 
                 # TODO: support nested CHOICE ordering
-                return SetEncoder._tagSortKey(asn1Spec[names[0]].tagSet)
+                return SetEncoder._tagSortKey(
+                    asn1Spec.componentType[names[0]].asn1Object.tagSet)
 
         else:
             return SetEncoder._tagSortKey(compType.tagSet)
